@@ -59,9 +59,10 @@ type c04Obs struct {
 }
 
 type c04kv struct {
-	id  int
-	key []byte
-	val []byte
+	id   int
+	key  []byte
+	val  []byte
+	want []byte // what a lookup must return when it differs from val (zero-padded short value)
 }
 
 func c04build(format string, vsize int, declared uint, kvs []c04kv, path string) (outcome, detail string) {
@@ -161,7 +162,11 @@ func c04lookup(format string, path string, kvs []c04kv) (found []bool, detail st
 				gots[i], errs[i] = db.Lookup(kv.key)
 			}
 			for i, kv := range kvs {
-				found[i] = errs[i] == nil && bytes.Equal(gots[i], kv.val)
+				exp := kv.val
+				if kv.want != nil {
+					exp = kv.want
+				}
+				found[i] = errs[i] == nil && bytes.Equal(gots[i], exp)
 			}
 			if len(kvs) >= 2 && len(kvs) <= 3000 {
 				var wg sync.WaitGroup
@@ -178,7 +183,11 @@ func c04lookup(format string, path string, kvs []c04kv) (found []bool, detail st
 						for r := 0; r < 2; r++ {
 							for i := w; i < len(kvs); i += 2 {
 								got, err := db.Lookup(kvs[i].key)
-								if err != nil || !bytes.Equal(got, kvs[i].val) {
+								exp := kvs[i].val
+								if kvs[i].want != nil {
+									exp = kvs[i].want
+								}
+								if err != nil || !bytes.Equal(got, exp) {
 									bad[w] = true
 								}
 							}
@@ -368,8 +377,20 @@ func TestVerifC04(t *testing.T) {
 			v := make([]byte, c.Vsize)
 			rng.Read(v)
 			kvs = append(kvs, c04kv{id: len(kvs) + 1, key: k, val: v})
-		case "short-value":
-			kvs[0].val = kvs[0].val[:len(kvs[0].val)-1]
+		case "short-values":
+			// Insert pads a value shorter than the value size with zeros (the typed index writers rely on it): every
+			// third value is cut short (keeping a non-zero last byte), a lookup must return it zero-padded
+			for i := range kvs {
+				if i%3 == 1 && len(kvs[i].val) > 1 {
+					full := kvs[i].val
+					n := 1 + rng.Intn(len(full)-1)
+					short := append([]byte{}, full[:n]...)
+					short[n-1] |= 1
+					want := make([]byte, len(full))
+					copy(want, short)
+					kvs[i].val, kvs[i].want = short, want
+				}
+			}
 		case "long-value":
 			kvs[0].val = append(kvs[0].val, 0x42)
 		case "vsize-0", "vsize-253", "vsize-255", "vsize-256":
